@@ -1,6 +1,7 @@
 import Driver.Util
 import ReplicatModel.Settings
 import ReplicatModel.KeyFileIO
+import ReplicatModel.SettingsCli
 open Lean Replicat Replicat.Gen Replicat.Settings
 namespace Driver.HSettings
 /-! requests `settings.*` (DESIGN.md Appendix A).
@@ -218,4 +219,92 @@ def handleSettings (op : String) (j : Json) : Except String Json := do
 
 end Driver.HSettings
 
-def Driver.handleSettings := Driver.HSettings.handleSettings
+/-! requests `settings.cli.*` — custom settings written on the command line (`ReplicatModel/SettingsCli.lean`).
+Texts cross as JSON strings; a guess is a typed value (as above) or `["u"]` = outside the modelled fragment of `guess_type`;
+a nested dict is `["m", [[key, sub], …]]` with the children IN INSERTION ORDER. -/
+namespace Driver.HSettingsCli
+open Replicat.SettingsCli Driver.HSettings
+
+def strs (l : List Str) : Json := Json.arr (l.map (fun s => Json.str (String.ofList s))).toArray
+
+def guessJson : Guess → Json
+  | .val v => valJson v
+  | .unmodelled => Json.arr #[Json.str "u"]
+
+partial def treeJson : Tree Val → Json
+  | .leaf v => valJson v
+  | .node kids => Json.arr #[Json.str "m", Json.arr (kids.map (fun kv => Json.arr #[Json.str (String.ofList kv.1), treeJson kv.2])).toArray]
+
+def getStrs (j : Json) (k : String) : Except String (List Str) := do
+  (← getArr j k).toList.mapM (fun v => do pure (← v.getStr?).toList)
+
+def outcomeJson : CliOutcome Val → Json
+  | .noSettings => Json.mkObj [("outcome", Json.str "none")]
+  | .unrecognised u => Json.mkObj [("outcome", Json.str "unrecognised"), ("unknown", strs u)]
+  | .conflict => Json.mkObj [("outcome", Json.str "conflict")]
+  | .settings t => Json.mkObj [("outcome", Json.str "settings"), ("tree", treeJson t)]
+  | .unmodelled => Json.mkObj [("outcome", Json.str "unmodelled")]
+
+def handle (op : String) (j : Json) : Except String Json := do
+  match op with
+  | "settings.cli.parse" =>
+    let args ← getStrs j "args"
+    let (m, u) := parseCliSettings args
+    pure (Json.mkObj [
+      ("mapping", Json.arr (m.map (fun kv => Json.arr #[Json.str (String.ofList kv.1), guessJson kv.2])).toArray),
+      ("unknown", strs u),
+      ("pairs", Json.arr ((cliPairs args).map (fun p => strs [p.1, p.2])).toArray),
+      ("leftover", strs (cliLeftover args))])
+  | "settings.cli.guess" =>
+    let texts ← getStrs j "texts"
+    pure (Json.mkObj [("values", Json.arr (texts.map (fun t => guessJson (guessType t))).toArray)])
+  | "settings.cli.nest" =>
+    -- a dict with scalar values, items in insertion order
+    let flat ← (← getArr j "flat").toList.mapM (fun kv => do
+      let a ← kv.getArr?
+      let k ← (a[0]?.getD Json.null).getStr?
+      match ← parseVal (a[1]?.getD Json.null) with
+      | some v => pure (k.toList, v)
+      | none => throw "settings.cli.nest: scalar values only")
+    match flatToNested flat with
+    | .ok t => pure (Json.mkObj [("conflict", Json.bool false), ("tree", treeJson t)])
+    | .error _ => pure (Json.mkObj [("conflict", Json.bool true), ("tree", Json.null)])
+  | "settings.cli.main" =>
+    let action ← getStr j "action"
+    let args ← getStrs j "args"
+    pure (outcomeJson (cliMain action args))
+  | "settings.cli.render" =>
+    -- canonical command line of a settings dictionary (the rendering `cli_settings_equals_direct` is about)
+    match ← parseSettings (← j.getObjVal? "settings") with
+    | none => pure (Json.mkObj [("expressible", Json.bool false), ("args", Json.arr #[]), ("leaves", Json.arr #[])])
+    | some s =>
+      pure (Json.mkObj [
+        ("expressible", Json.bool (cliExpressible s)),
+        ("args", strs (renderSettings s)),
+        ("leaves", Json.arr ((leavesOf s).map (fun l => Json.arr #[strs l.1, valJson l.2])).toArray)])
+  | "settings.cli.table" =>
+    pure (Json.mkObj [
+      ("flag_prefix", Json.str (String.ofList cliFlagPrefix)),
+      ("key_ops", Json.arr (cliKeyOps.map (fun o => Json.str (reprStr o))).toArray),
+      ("coercion", Json.str cliCoercion),
+      ("loop_recognised", Json.bool cliLoopRecognised),
+      ("sep", Json.str (String.ofList [flatSep])),
+      ("sorted", Json.bool flatSorted),
+      ("conflict_catches", Json.arr (flatConflictCatches.map Json.str).toArray),
+      ("conflict_raises", Json.str flatConflictRaises),
+      ("descent_recognised", Json.bool flatDescentRecognised),
+      ("title_words", strs guessTitleWords),
+      ("guess_eval", Json.str guessEval),
+      ("guess_catches", Json.arr (guessCatches.map Json.str).toArray),
+      ("guess_recognised", Json.bool guessRecognised),
+      ("guess_max_len", jnat guessMaxLen),
+      ("main_chain", Json.arr (mainCliChain.map (fun c => Json.str (reprStr c))).toArray),
+      ("main_actions", Json.arr (mainSettingsActions.map Json.str).toArray),
+      ("main_passes", Json.arr (mainHandlerPassesSettings.map (fun p => Json.str (p.1 ++ "→" ++ p.2))).toArray),
+      ("main_recognised", Json.bool mainChainRecognised)])
+  | _ => throw s!"unknown op {op}"
+
+end Driver.HSettingsCli
+
+def Driver.handleSettings (op : String) (j : Json) : Except String Json :=
+  if op.startsWith "settings.cli." then Driver.HSettingsCli.handle op j else Driver.HSettings.handleSettings op j
